@@ -685,6 +685,31 @@ impl<'tcx> Visitor<'tcx> for HirV<'tcx> {
                     ("arms".into(), J::Arr(arms_j)),
                 ]));
             }
+            ExprKind::If(cond, then, _els) => {
+                // `if let PAT = EXPR { .. }` is a one-arm match (recorded like a match so that rules over
+                // the reader's vocabulary do not depend on which of the two forms is written)
+                let mut c: &rustc_hir::Expr<'tcx> = cond;
+                while let ExprKind::DropTemps(inner) = &c.kind {
+                    c = inner;
+                }
+                if let ExprKind::Let(le) = &c.kind {
+                    let tc = self.tcx.typeck(self.owner);
+                    let sty = tc.expr_ty(le.init);
+                    let arm = J::Obj(vec![
+                        ("pat".into(), pat_s(self.tcx, le.pat)),
+                        ("guard".into(), J::Bool(false)),
+                        ("span".into(), span_j(self.tcx, e.span)),
+                        ("body_span".into(), span_j(self.tcx, then.span)),
+                    ]);
+                    self.matches.push(J::Obj(vec![
+                        ("scrut_ty".into(), J::Str(ty_s(sty))),
+                        ("scrut".into(), expr_lit(le.init)),
+                        ("src".into(), J::Str("IfLet".into())),
+                        ("span".into(), span_j(self.tcx, e.span)),
+                        ("arms".into(), J::Arr(vec![arm])),
+                    ]));
+                }
+            }
             ExprKind::MethodCall(seg, recv, args, _) => {
                 let tc = self.tcx.typeck(self.owner);
                 let callee = tc.type_dependent_def_id(e.hir_id).map(|d| self.tcx.def_path_str(d));
@@ -732,6 +757,33 @@ impl<'tcx> Visitor<'tcx> for HirV<'tcx> {
             _ => {}
         }
         intravisit::walk_expr(self, e);
+    }
+
+    fn visit_block(&mut self, b: &'tcx rustc_hir::Block<'tcx>) {
+        // `let PAT = EXPR else { .. };` is a one-arm match whose body is the rest of the block
+        for st in b.stmts {
+            if let rustc_hir::StmtKind::Let(l) = &st.kind {
+                if let (Some(init), Some(_els)) = (l.init, l.els) {
+                    let tc = self.tcx.typeck(self.owner);
+                    let sty = tc.expr_ty(init);
+                    let rest = st.span.shrink_to_hi().to(b.span.shrink_to_hi());
+                    let arm = J::Obj(vec![
+                        ("pat".into(), pat_s(self.tcx, l.pat)),
+                        ("guard".into(), J::Bool(false)),
+                        ("span".into(), span_j(self.tcx, st.span)),
+                        ("body_span".into(), span_j(self.tcx, rest)),
+                    ]);
+                    self.matches.push(J::Obj(vec![
+                        ("scrut_ty".into(), J::Str(ty_s(sty))),
+                        ("scrut".into(), expr_lit(init)),
+                        ("src".into(), J::Str("LetElse".into())),
+                        ("span".into(), span_j(self.tcx, st.span)),
+                        ("arms".into(), J::Arr(vec![arm])),
+                    ]));
+                }
+            }
+        }
+        intravisit::walk_block(self, b);
     }
 }
 
